@@ -620,7 +620,12 @@ fn judge_exchange(ctx: &mut Ctx, ec: &ExchangeCase, timeout: Duration) {
                 ("sat-exact", ExtResult::Sat(m)) => {
                     m.len() >= ec.model.len() && ec.model.iter().enumerate().all(|(i, b)| m[i] == Some(*b))
                 }
-                ("unsat", ExtResult::Unsat) => true,
+                ("unsat", ExtResult::Unsat) | ("unsat-or-abort", ExtResult::Unsat) => true,
+                ("sat-exact-or-abort", ExtResult::Sat(m)) => {
+                    m.len() >= ec.model.len() && ec.model.iter().enumerate().all(|(i, b)| m[i] == Some(*b))
+                }
+                ("sat-exact-or-abort", ExtResult::Unknown) | ("sat-exact-or-abort", ExtResult::Panic(_)) => true,
+                ("unsat-or-abort", ExtResult::Unknown) | ("unsat-or-abort", ExtResult::Panic(_)) => true,
                 ("undecided-or-abort", ExtResult::Unknown) | ("undecided-or-abort", ExtResult::Panic(_)) => true,
                 _ => false,
             };
@@ -661,7 +666,8 @@ fn size_bucket(b: usize) -> &'static str {
     }
 }
 
-pub const REPLY_FAULTS: [&str; 12] = [
+pub const REPLY_FAULTS: [&str; 13] = [
+    "zero-mid-model",
     "garbage-after-reply",
     "double-status-unsat-first",
     "exit-silent",
@@ -713,6 +719,16 @@ fn gen_exchange(ctx: &Ctx, rng: &mut Rng, idx: u64) -> ExchangeCase {
                 opts.push("crlf".to_string());
             }
             bucket_parts.push(format!("volume/{}", size_bucket(pad)));
+            // a verbose solver: diagnostics on stderr, below and above the pipe capacity
+            if rng.pct(30) {
+                let e = match rng.below(4) {
+                    0 => 1024,
+                    1 | 2 => (60 + rng.below(11)) * 1024,
+                    _ => 300 * 1024,
+                };
+                opts.push(format!("errpad={},{}", e, if rng.pct(50) { "before" } else { "after" }));
+                bucket_parts.push(format!("stderr/{}", size_bucket(e)));
+            }
         }
         2 => {
             // schedules
@@ -722,6 +738,12 @@ fn gen_exchange(ctx: &Ctx, rng: &mut Rng, idx: u64) -> ExchangeCase {
                 opts.push(format!("pad={}", rng.pick(&[0usize, 1024, 70 * 1024, 300 * 1024])));
             }
             bucket_parts.push(format!("schedule/{}", mode.split(':').next().unwrap()));
+        }
+        _ if rng.pct(7) => {
+            // a reply that is honest apart from a comment line that is not valid UTF-8: whether that is
+            // "malformed" is open, so the only wrong outcome is a result that differs from the honest one
+            opts.push("fault=non-utf8-comment@*".to_string());
+            bucket_parts.push("odd-reply/non-utf8-comment".to_string());
         }
         _ => {
             let f = REPLY_FAULTS[rng.below(REPLY_FAULTS.len())];
@@ -736,7 +758,9 @@ fn gen_exchange(ctx: &Ctx, rng: &mut Rng, idx: u64) -> ExchangeCase {
     if big_request {
         bucket_parts.push("big-request".to_string());
     }
-    let expect = if opts.iter().any(|o| o.starts_with("fault=") || o == "mode=no-read") {
+    let expect = if opts.iter().any(|o| o == "fault=non-utf8-comment@*") {
+        if sat { "sat-exact-or-abort".to_string() } else { "unsat-or-abort".to_string() }
+    } else if opts.iter().any(|o| o.starts_with("fault=") || o == "mode=no-read") {
         "undecided-or-abort".to_string()
     } else if sat {
         "sat-exact".to_string()
